@@ -211,7 +211,7 @@ def rule_insert_table(an, res, prop):
     """R-INSERT-TABLE / R-REJECT-PURE / R-TALLY (C09); the same walk feeds C19's rejected-insert clause"""
     for cm, roles in an.classes():
         for m, top, bodies in insert_bodies(an, cm, roles, res):
-            if not bodies and not top.loops:
+            if not bodies and not top.loops and not ops.empty_range_exit(top, m):
                 # an insert path that never consults the index
                 res.ob('R-INSERT-TABLE', ok=False)
                 V(res, prop, 'R-INSERT-TABLE', cm, m.key(), 'insert path does not consult the index', site_of_seg(top, m),
@@ -363,7 +363,7 @@ def rule_noninterference(an, res):
                 continue
             for top in method_segments(an, cm, roles, m, res):
                 bodies = ops.find_bodies(top, m)
-                if not bodies and not top.loops:
+                if not bodies and not top.loops and not ops.empty_range_exit(top, m):
                     res.ob('R-PURE-NOOP', ok=False)
                     V(res, prop, 'R-PURE-NOOP', cm, m.key(), 'path does not consult the index', site_of_seg(top, m),
                       'no presence test on this path of %s' % m.key())
